@@ -27,7 +27,7 @@ func c05Session(r *rand.Rand, P string, n int) ([]wire.Req, []string) {
 	add := func(tag string, q wire.Req) { reqs = append(reqs, q); tags = append(tags, tag) }
 	newN := 0
 	createTargets := func() (string, string) {
-		switch r.Intn(9) {
+		switch r.Intn(10) {
 		case 0, 1, 2:
 			newN++
 			return "new", fmt.Sprintf("%s/new%d.bin", P, newN)
@@ -41,8 +41,12 @@ func c05Session(r *rand.Rand, P string, n int) ([]wire.Req, []string) {
 			return "no-parent", P + "/nodir/x.bin"
 		case 7:
 			return "virtual", "/***DVD***" + P + "/v.bin"
-		default:
+		case 8:
 			return "virtual-ps3", "/***PS3***" + P
+		default:
+			// an image that has key files around it: never read back through the server here (what an OPEN
+			// of it yields is C11's subject), only its effect on the tree is judged
+			return "keyed-image", P + []string{"/media/PS3ISO/a.iso", "/media/PS3ISO/b.ISO", "/media/c.iso", "/media/PS3ISO/new.iso"}[r.Intn(4)]
 		}
 	}
 	for len(reqs) < n {
@@ -74,6 +78,29 @@ func c05Session(r *rand.Rand, P string, n int) ([]wire.Req, []string) {
 					}
 				}
 				add(fmt.Sprintf("WRITE %d%s", sz, kind), wire.Write(pay))
+				// the upload goes on while the connection does other things: the requests of the read and
+				// directory side, the console's CLOSEFILE included, leave the file open for writing alone
+				if r.Intn(3) == 0 {
+					switch r.Intn(6) {
+					case 0:
+						add("OPEN CLOSEFILE mid-upload", wire.P(wire.OpOpen, "/CLOSEFILE"))
+					case 1:
+						add("OPEN other mid-upload", wire.P(wire.OpOpen, P+"/old.bin"))
+						add("READ other mid-upload", wire.Read(50, 10))
+						add("OPEN CLOSEFILE mid-upload", wire.P(wire.OpOpen, "/CLOSEFILE"))
+					case 2:
+						add("OPEN missing mid-upload", wire.P(wire.OpOpen, P+"/missing"))
+					case 3:
+						add("OPENDIR mid-upload", wire.P(wire.OpOpenDir, P))
+						add("RDE mid-upload", wire.Bare(wire.OpRDE))
+					case 4:
+						add("STAT mid-upload", wire.P(wire.OpStat, P+"/old.bin"))
+						add("DIRSIZE mid-upload", wire.P(wire.OpDirSize, P+"/full"))
+					case 5:
+						add("OPENDIR missing mid-upload", wire.P(wire.OpOpenDir, P+"/missing"))
+						add("READDIR mid-upload", wire.Bare(wire.OpReadDir))
+					}
+				}
 			}
 			if kind == "new" || kind == "existing" || kind == "in-subdir" {
 				switch r.Intn(4) {
@@ -88,13 +115,13 @@ func c05Session(r *rand.Rand, P string, n int) ([]wire.Req, []string) {
 		case 3:
 			add("WRITE stray", wire.Write(tree.Content(r.Int63(), int64(c05Payloads[r.Intn(5)]))))
 		case 4:
-			t := []string{"/old.bin", "/new1.bin", "/full", "/missing", "/gone", "/full/x", "/ldir", "/lfile"}[r.Intn(8)]
+			t := []string{"/old.bin", "/new1.bin", "/full", "/missing", "/gone", "/full/x", "/ldir", "/lfile", "/media/PS3ISO/a.iso", "/media/PS3ISO/b.ISO", "/media/c.iso", "/media/PS3ISO/a.dkey", "/media/d.bin"}[r.Intn(13)]
 			add("DELETE "+t, wire.P(wire.OpDelete, P+t))
 		case 5:
 			t := []string{"/nd", "/full", "/old.bin", "/no/parent", "/nd/inner", "/gone/sub"}[r.Intn(6)]
 			add("MKDIR "+t, wire.P(wire.OpMkdir, P+t))
 		case 6:
-			t := []string{"/gone", "/full", "/old.bin", "/missing", "/nd", "/ldir", "/lfile"}[r.Intn(7)]
+			t := []string{"/gone", "/full", "/old.bin", "/missing", "/nd", "/ldir", "/lfile", "/media/REDKEY", "/media/PS3ISO", "/media/empty"}[r.Intn(10)]
 			add("RMDIR "+t, wire.P(wire.OpRmdir, P+t))
 		case 7:
 			add("STAT", wire.P(wire.OpStat, P+[]string{"/old.bin", "/new1.bin", "/full", "/nd"}[r.Intn(4)]))
@@ -264,6 +291,7 @@ func C05(e *Env) {
 			abortUpload(t, i/6)
 		}
 		privateTree(root, s.P[1:])
+		c05Media(root, s.P[1:])
 		w := *t.w
 		w.SnapDir = filepath.Join(root, s.P[1:])
 		// some sessions deliver every request in small pieces (a path split over several segments must
@@ -367,4 +395,23 @@ func pick2(c bool, a, b string) string {
 		return a
 	}
 	return b
+}
+
+
+// c05Media adds images with key files around them to a private subtree: the quantifier's "targets that
+// are ... encrypted images". A mutating request aimed at an image has exactly its named effect: the key
+// beside it, the key in REDKEY and the neighbours stay as they are.
+func c05Media(root, name string) {
+	m := filepath.Join(root, name, "media")
+	must(os.MkdirAll(filepath.Join(m, "PS3ISO"), 0o755))
+	must(os.MkdirAll(filepath.Join(m, "REDKEY"), 0o755))
+	must(os.MkdirAll(filepath.Join(m, "empty"), 0o755))
+	img := tree.Content(77, 3*2048)
+	for _, f := range []string{"PS3ISO/a.iso", "PS3ISO/b.ISO", "c.iso", "d.bin"} {
+		must(os.WriteFile(filepath.Join(m, f), img, 0o644))
+	}
+	key := []byte("000102030405060708090a0b0c0d0e0f")
+	for _, f := range []string{"PS3ISO/a.dkey", "PS3ISO/new.dkey", "REDKEY/a.dkey", "REDKEY/b.dkey", "c.dkey", "d.dkey", "PS3ISO/a.iso.dkey"} {
+		must(os.WriteFile(filepath.Join(m, f), key, 0o644))
+	}
 }
